@@ -360,6 +360,12 @@ func (p *valParser) val() interface{} {
 	case 'Z', 'Y':
 		// the typed twin of A / O: a homogeneous array becomes a typed slice ([]string, []int, []int64, []float64,
 		// []bool, []map[string]interface{}), a homogeneous map a typed map; the model reads them as A / O
+		if t == "Zn" { // a nil slice of a typed slice type: an (empty) array, not null
+			return []string(nil)
+		}
+		if t == "Yn" { // a nil map of a typed map type: an (empty) map, not null
+			return map[string]string(nil)
+		}
 		n, _ := strconv.Atoi(t[1:])
 		var keys []string
 		var vals []interface{}
